@@ -852,6 +852,20 @@ def register(I):
     def _m_is_empty(I, a, cc):
         return len(deref(a[0]).d) == 0
 
+    @intr(*mk(["retain"]))
+    def _m_retain(I, a, cc):
+        # maps: the closure gets (&K, &mut V); sets: (&K)
+        m = deref(a[0])
+        for k in list(m.keys()):
+            kb = m.d[k]
+            if m.ty in ("HashSet", "BTreeSet"):
+                keep = I.call_value(a[1], [ValPtr(kb.k)], cc.frame)
+            else:
+                keep = I.call_value(a[1], [_keyref(kb.k), Ptr(_KBView(kb), 0)], cc.frame)
+            if not I.truth(keep, "retain"):
+                del m.d[k]
+        return UNIT
+
     @intr(*mk(["clear"]))
     def _m_clear(I, a, cc):
         deref(a[0]).d.clear()
